@@ -52,6 +52,9 @@ func c05Base(r *mrand.Rand, rootDPs []string) *c05World {
 	return cw
 }
 
+// c05Thorough widens the revoked sets (set by c05 before the sets are built).
+var c05Thorough bool
+
 // revokedSets returns named serial sets built around a target serial.
 func revokedSets(r *mrand.Rand, t *big.Int) map[string][]*big.Int {
 	one := big.NewInt(1)
@@ -62,6 +65,17 @@ func revokedSets(r *mrand.Rand, t *big.Int) map[string][]*big.Int {
 		b[0] &= 0x7f
 		b[0] |= 0x40
 		return new(big.Int).SetBytes(b)
+	}
+	manyN := func(n, pos int) []*big.Int {
+		var out []*big.Int
+		for i := 0; i < n; i++ {
+			if i == pos {
+				out = append(out, t)
+			} else {
+				out = append(out, big20())
+			}
+		}
+		return out
 	}
 	many := func(pos int) []*big.Int {
 		var out []*big.Int
@@ -76,7 +90,7 @@ func revokedSets(r *mrand.Rand, t *big.Int) map[string][]*big.Int {
 	}
 	shifted := new(big.Int).Lsh(one, uint(8*(len(t.Bytes())))) // target with a leading 0x01 byte
 	shifted.Add(shifted, t)
-	return map[string][]*big.Int{
+	sets := map[string][]*big.Int{
 		"target":                 {t},
 		"target-among-others":    {big20(), t, big20()},
 		"target-first-of-1000":   many(0),
@@ -90,6 +104,16 @@ func revokedSets(r *mrand.Rand, t *big.Int) map[string][]*big.Int {
 		"unrelated-20-byte":      {big20(), big20()},
 		"unrelated-1000":         many(-1),
 	}
+	// lists of the size Intel's platform CA publishes, with entry counts that no worker count divides
+	sets["target-last-of-8193"] = manyN(8193, 8192)
+	sets["target-8th-from-last-of-20011"] = manyN(20011, 20003)
+	if c05Thorough {
+		sets["target-2nd-from-last-of-10007"] = manyN(10007, 10005)
+		sets["target-last-of-20011"] = manyN(20011, 20010)
+		sets["target-15th-from-last-of-65537"] = manyN(65537, 65522)
+		sets["target-middle-of-20011"] = manyN(20011, 10000)
+	}
+	return sets
 }
 
 // expectEndpoint: every endpoint outcome must lead to rejection, except a CRL followed by a stray byte,
@@ -103,6 +127,7 @@ func expectEndpoint(name string) string {
 
 func c05(x *mon.Ctx) {
 	enableTwins(x)
+	c05Thorough = !x.Quick()
 	x.Level = "fault_enumeration"
 	x.Rule = "fault enumeration over the revocation grid: target in {leaf, intermediate CA, TCB-Info signer, QE-Identity signer (a different certificate)} x revoked set in {target alone, among others, first / middle / last of 1000, twice, serial+-1, serial with a leading byte, serial x 256, unrelated 20-byte serials, 1000 unrelated} x listed in {the right CRL, the other CRL}; CRL signer in {right CA, the other CA, a foreign key under the same name, a look-alike CA}; endpoint outcome per CRL in {ok, error, empty, garbage, truncated DER, the other CRL, a CRL of a look-alike issuer}; 1-3 distribution points with each prefix failing; all four option combinations. Oracle: with revocation on, accept => both CRLs were served, each verifies under the chain's root / intermediate, and none of the four serials is listed in the CRL that governs it (independent x509.ParseRevocationList + raw ECDSA); revocation without collateral must fail. Non-trivial = the unrevoked twin was accepted at the same level. distinct = (class, parameter, options)."
 	x.Assume = []string{"crypto/x509 CRL parsing is correct", "reference reads 'obtained' existentially over everything the endpoint served"}
@@ -537,6 +562,8 @@ func c05(x *mon.Ctx) {
 	for _, t := range []string{"leaf", "intermediate", "tcb-signer", "qe-signer"} {
 		x.Require("revoked/"+t+"/target", 0, 2, 2)
 		x.Require("revoked/"+t+"/target-last-of-1000", 0, 2, 2)
+		x.Require("revoked/"+t+"/target-last-of-8193", 0, 2, 2)
+		x.Require("revoked/"+t+"/target-8th-from-last-of-20011", 0, 2, 2)
 		x.Require("not-revoked/"+t+"/near-miss-plus-1", 3, 0, 3)
 		x.Require("not-revoked/"+t+"/near-miss-leading-byte", 3, 0, 3)
 		x.Require("not-revoked/"+t+"/target", 1, 0, 1) // listed only in the CRL that does not govern it
